@@ -50,6 +50,9 @@ def run(ctx):
             if u.container in ("array", "vec"):
                 joinlike.rule_zero(ctx, M, u, "C04.ZERO", ("Ready",))
         joinlike.rule_take_util(ctx, M, "C04.POS")
+        from . import c02
+        with ctx.renamed({"C02.UTIL": "C04.POS"}):
+            c02.rule_util(ctx, M)
         joinlike.rule_zero_tuple0(ctx, M, "join", "C04.ZERO", "Ready")
         n = joinlike.rule_ext(ctx, M, "future::futures_ext::FutureExt", "join", "join", "C04.EXT")
         ctx.require(n >= 1, "FutureExt::join")
